@@ -112,17 +112,17 @@ ADD = {
  "C04": " Added: near-identical blocks (one bit flipped in the last 8 positions / first / middle) among 100 filler blocks for m=67,100,500,1000; Maurer: bursts of 16..127 never-seen letters after a constant / alternating initial segment.",
  "C05": " Added: every 1- and 2-byte string and fillers of 3..2500 bytes through the byte entry point and the registry runner; family S3: bin N/4 on the integer next to the threshold for the 15 most sensitive lengths in (2^14, 2^18], compared in exact integer arithmetic.",
  "C06": " Added: the lower tail 10^-k, 3*10^-k down to the subnormals and the floats around 2^-1074..2^-26 cut-off candidates.",
- "C07": " Added: exact-length streams whose final Read reports io.EOF together with its bytes; three of four scenarios preceded by an earlier call that its source aborts.",
+ "C07": " Added: exact-length streams whose final Read reports io.EOF together with its bytes; three of four scenarios preceded by an earlier call that its source aborts. The stub of the two-valued item (overlapping subsequences) carries a decoy second statistic (P2 below P, constant Q2): a workflow that lets P2/Q2 reach the histogram changes its verdict (also C08-C10).",
  "C08": " Added: two consecutive calls on one source (results and bytes consumed equal the sequential twin's), exact-length streams ending with (n>0, io.EOF), another parallel workflow called first, streams that fail (typed error then EOF, EOF, custom, short-then-EOF).",
  "C09": " Added: W+2 consecutive failing calls in one execution; package-level channels of the code under test (limiters) are modelled, so a slot leaked on an error path is a deadlock of the model; a fault kind whose error has a slice type.",
  "C10": " Added: exact-length streams whose final Read reports io.EOF together with its bytes (sequential and parallel).",
  "C11": " Added: sources whose final Read reports io.EOF together with the last requested bytes; requests up to 2^20 (2^24) bytes with stuck and biased contents; for every length 40..4096 the histograms whose P-value is closest to 0.01 on both sides.",
  "C12": " Added: lists of 5000..10^6 values (uniform, skewed, everything in one or two intervals).",
- "C13": " Added: timers of the tool (progress tickers) are modelled by the scheduler; directories named *.bin/*.dat, a longer stale report at the report path, two sample files sharing a base name in two sub-directories (one row each).",
- "C14": " Added: under the controlled scheduler (stub runners) a rejected stream is judged while a second goroutine judges a healthy stream with the same detection (seq|fast x seq|fast, <=1 deviation, four policies): each call must return what it returns alone; healthy requests before stuck ones; single-shot lengths to 2^22 (2^24); four of the streams ending early (0..sN-1 bytes) through all six workflows.",
+ "C13": " Added: timers of the tool (progress tickers) are modelled by the scheduler; directories named *.bin/*.dat, a longer stale report at the report path, two sample files sharing a base name in two sub-directories (one row each). Every sample tree carries hidden non-sample files (.DS_Store, .gitkeep, .hidden) and a hidden directory (.git/) next to the samples.",
+ "C14": " Added: under the controlled scheduler (stub runners) a rejected stream is judged while a second goroutine judges a healthy stream with the same detection (seq|fast x seq|fast, <=1 deviation, four policies): each call must return what it returns alone; healthy requests before stuck ones; single-shot lengths to 2^22 (2^24); four of the streams ending early (0..sN-1 bytes) through all six workflows. Stuck sources of 200000000 and 2^28-1 bytes (thorough: five more between 2^27 and 3*10^8), where 64-bit products of pattern counts wrap.",
  "C15": " Added: ReadGroup on file sizes around 2^12..2^18 and over a named pipe delivering the contents in 1..3 pieces; byte lengths at regime boundaries; inputs of 2^20+3 .. 12500003 bytes; stuck inputs of 2^24+5 bytes; every entry-point pair under load (eight goroutines per CPU, mixed and one pair at a time).",
  "C18": " Added: every registry runner repeated alone and paired with itself on 10^6-bit samples (<=1 preemption); inputs are windows of larger buffers (the spare capacity is hashed too); free-running -race pass: every entry point three at once on one shared buffer, sixteen goroutines running one operation on six inputs and eight on 10^6-bit samples, results compared with the solitary ones.",
- "C20": " Added: output and working directories whose names contain printf verbs, blanks, non-ASCII characters, a trailing separator or dot segments; names ending in .bin/.dat; larger stale samples; leftovers of an interrupted run (missing, empty, short sample inside a finished prefix).",
+ "C20": " Added: output and working directories whose names contain printf verbs, blanks, non-ASCII characters, a trailing separator or dot segments; names ending in .bin/.dat; larger stale samples; leftovers of an interrupted run (missing, empty, short sample inside a finished prefix). Size sweep: rdgen -s 2 -n 8b for every b in 1..64 and around every power of two up to 4 MiB (thorough: also k*4096, k*65536, k*65536+1, k*1000 for k=2..40).",
 }
 
 NOT_YET = {
